@@ -196,6 +196,14 @@ func init() {
 		},
 		func(x *ton.AccountID) sx.V { return sx.L(sx.Z(int64(x.Workchain)), sx.Bytes(x.Address[:])) })
 
+	execs["c20.valid"] = func(in sx.V) sx.V { return sx.B(json.Valid(in.Bytes)) }
+	execs["c20.unquote"] = func(in sx.V) sx.V {
+		var s string
+		if err := json.Unmarshal(in.Bytes, &s); err != nil {
+			return sx.A("err")
+		}
+		return sx.Str(s)
+	}
 	execs["c20.print"] = execC20Print
 	execs["c20.parse"] = func(in sx.V) sx.V { return execC20Parse(in, false) }
 	execs["c20.method"] = func(in sx.V) sx.V { return execC20Parse(in, true) }
@@ -664,7 +672,7 @@ func genC20(c *Ctx) {
 		for _, n := range []int{0, 1, 4, 7, 8, 252, 255, 256, 256, 256, 257, 260, 511, r.Intn(512)} {
 			wc := wcVar[r.Intn(len(wcVar))]
 			a := anys()
-			k := case20{fam: "addr", arg: sx.Nat(0), val: sx.L(sx.A("var"), a, sx.Nat(n), sx.Z(wc), sx.Bits(randBits(r, n))), class: "addr|var|" + lenBucket20(n) + "|" + anyCls(a)}
+			k := case20{fam: "addr", arg: sx.Nat(0), val: sx.L(sx.A("var"), a, sx.Nat(n), sx.Z(wc), sx.Bits(randBits(r, n))), class: "addr|var|" + lenBucket20(n)}
 			if n == 256 && wc >= -128 && wc <= 127 {
 				k.excluded = true
 				k.class = "addr|var|excluded-std-text"
@@ -754,14 +762,15 @@ func genC20(c *Ctx) {
 	for rep := 0; rep < 2*reps; rep++ {
 		for _, in := range inners {
 			marg := sx.L(sx.A(in.fam), in.arg)
-			case20{fam: "maybe", arg: marg, val: sx.A("none"), class: "maybe|" + in.fam + "|none"}.run(c, nMut)
-			case20{fam: "maybe", arg: marg, val: sx.L(sx.A("some"), in.val()), class: "maybe|" + in.fam + "|some"}.run(c, nMut)
+			case20{fam: "maybe", arg: marg, val: sx.A("none"), class: "maybe|" + in.fam}.run(c, nMut)
+			case20{fam: "maybe", arg: marg, val: sx.L(sx.A("some"), in.val()), class: "maybe|" + in.fam}.run(c, nMut)
 			if rep == 0 {
 				case20{fam: "maybe", arg: marg, class: "maybe|" + in.fam}.hand(c, "null", " null", "null ", "\nnull\t", "nul", "nulll", "\"null\"", "[null]", "", "7", "\"7\"", " 7 ", "\"\"")
 			}
 		}
 	}
 	genC20Envelopes(c)
+	genC20Scanner(c)
 	// an empty external address under Maybe is the same known finding
 	{
 		marg := sx.L(sx.A("addr"), sx.Nat(0))
@@ -809,5 +818,87 @@ func (k case20) runCell(c *Ctx, nMut int, root *boc.Cell) {
 			kind = "c20.method"
 		}
 		k.mal(c, kind, m, "mut")
+	}
+}
+
+// ---- the re-implemented part of encoding/json on its own: random JSON
+// documents and their mutations through json.Valid and json.Unmarshal(&string)
+
+func randJSONString20(r *prng.R) string {
+	var sb strings.Builder
+	sb.WriteByte('"')
+	n := r.Intn(8)
+	pieces := []string{"a", "0", " ", "\\n", "\\\"", "\\\\", "\\/", "\\b", "\\f", "\\r", "\\t", "\\u0041", "\\u00e9", "\\u20AC", "\\ud83d\\ude00", "\\ud83d", "\\ude00", "\\ud83dx", "\\ud83d\\u0041", "\\uDBFF\\uDFFF", "\xc3\xa9", "\xe2\x82\xac", "\xf0\x9f\x98\x80", "\xff", "\xc3", "\xe2\x82", "\xed\xa0\x80", "\xf4\x90\x80\x80", "\xc0\xaf", "\x7f", ":", "<", "&", "\u2028"}
+	for i := 0; i < n; i++ {
+		sb.WriteString(pieces[r.Intn(len(pieces))])
+	}
+	sb.WriteByte('"')
+	return sb.String()
+}
+
+func randJSON20(r *prng.R, depth int) string {
+	ws := func() string { return []string{"", "", "", " ", "\n", "\t", "\r\n", "  "}[r.Intn(8)] }
+	k := r.Intn(10)
+	if depth <= 0 && k >= 7 {
+		k = r.Intn(7)
+	}
+	switch k {
+	case 0:
+		return []string{"0", "-0", "1", "-1", "12", "1234567890123456789012345678901234567890", "0.5", "-0.0", "1e5", "1E+5", "1e-5", "1.5e10", "0e0", "-1.25E-3"}[r.Intn(14)]
+	case 1, 2:
+		return randJSONString20(r)
+	case 3:
+		return "true"
+	case 4:
+		return "false"
+	case 5, 6:
+		return "null"
+	case 7, 8:
+		n := r.Intn(4)
+		var parts []string
+		for i := 0; i < n; i++ {
+			parts = append(parts, ws()+randJSON20(r, depth-1)+ws())
+		}
+		return "[" + ws() + strings.Join(parts, ",") + "]"
+	}
+	n := r.Intn(4)
+	var parts []string
+	for i := 0; i < n; i++ {
+		parts = append(parts, ws()+randJSONString20(r)+ws()+":"+ws()+randJSON20(r, depth-1)+ws())
+	}
+	return "{" + ws() + strings.Join(parts, ",") + "}"
+}
+
+func genC20Scanner(c *Ctx) {
+	r := c.R
+	emit := func(doc []byte, src string) {
+		v := c.Emit("c20.valid", sx.Bytes(doc), "scanner|"+src)
+		u := c.Emit("c20.unquote", sx.Bytes(doc), "unquote|"+src)
+		if v.IsA("panic") || u.IsA("panic") {
+			c.Fail("c20.valid", sx.Bytes(doc), "panic-json", "encoding/json panicked")
+		}
+	}
+	for i := 0; i < c.Scale(600, 20000); i++ {
+		doc := []byte(randJSON20(r, 3))
+		if r.Chance(30) {
+			doc = []byte(" " + string(doc) + "\n")
+		}
+		emit(doc, "gen")
+		for j := 0; j < 2; j++ {
+			emit(mutate20(r, doc), "mut")
+		}
+		s := []byte(randJSONString20(r))
+		emit(s, "string")
+		emit(mutate20(r, s), "string-mut")
+	}
+	for _, d := range commonDocs20 {
+		emit([]byte(d), "hand")
+	}
+	for _, d := range []string{"[[[[[[[[[[]]]]]]]]]]", "[[[[[[[[[[]]]]]]]]]", "{\"a\":{\"b\":[1,2,{\"c\":null}]}}", "{\"a\":1,}", "{,}", "[,]", "[1,]", "{\"a\"}", "{\"a\":}", "{a:1}", "{\"a\":1 \"b\":2}", "tru", "truee", "nulL", "-", "-a", "1.e1", "1e", "1e+", "0123", "0.", "\"\\u12g4\"", "\"\\x\"", "\"\\'\"", "\"\t\"", "\"\\ud83d\\ude0\""} {
+		emit([]byte(d), "hand")
+	}
+	// nesting limit of the scanner (10000): validity only
+	for _, d := range []string{strings.Repeat("[", 10001), strings.Repeat("[", 10000) + strings.Repeat("]", 10000), strings.Repeat("[", 10001) + strings.Repeat("]", 10001), strings.Repeat("[", 9999) + "1" + strings.Repeat("]", 9999), strings.Repeat("{\"a\":", 10000) + "1" + strings.Repeat("}", 10000), strings.Repeat("{\"a\":", 10001) + "1" + strings.Repeat("}", 10001)} {
+		c.Emit("c20.valid", sx.Bytes([]byte(d)), "scanner|depth")
 	}
 }
